@@ -306,6 +306,21 @@ func appReader(r *eng.Run, p *Pipe, cfg ReadCfg, o *Outcome) {
 		SkipHeaderCheck: cfg.SkipCheck,
 		Extensions:      cfg.Exts,
 	}
+	// ... or through the constructors, the options set afterwards (the same
+	// Reader by their documentation). Decided by the payload seed of the run,
+	// not by a draw of its own.
+	switch st := cfg.State(); {
+	case len(p.In)%3 == 1:
+		rd = wsutil.NewReader(src, st)
+		r.Probe("reader_from_a_constructor")
+	case len(p.In)%3 == 2 && st == ws.StateClientSide:
+		rd = wsutil.NewClientSideReader(src)
+		r.Probe("reader_from_a_constructor")
+	case len(p.In)%3 == 2 && st == ws.StateServerSide:
+		rd = wsutil.NewServerSideReader(src)
+		r.Probe("reader_from_a_constructor")
+	}
+	rd.CheckUTF8, rd.MaxFrameSize, rd.SkipHeaderCheck, rd.Extensions = cfg.CheckUTF8, cfg.MaxFrameSize, cfg.SkipCheck, cfg.Exts
 	if cfg.OnInter > 0 {
 		mode := cfg.OnInter
 		rd.OnIntermediate = func(h ws.Header, src io.Reader) error {
